@@ -109,6 +109,7 @@ static bool sameEntry(const HttpHeaderEntry *a, const HttpHeaderEntry *b)
 
 struct Labels { const char *accepted, *rejected; };
 
+static bool onlyReplyWsColon = false; // set by c25_known_reply_ws_colon only
 static void check(const uint8_t *in, const unsigned n, const http_hdr_owner_type owner, const int relaxedCfg, const Labels &lab)
 {
     const bool relaxed = relaxedCfg != 0, request = owner == hoRequest;
@@ -141,6 +142,11 @@ static void check(const uint8_t *in, const unsigned n, const http_hdr_owner_type
         if (f.kind == 2) ++nTe;
         if (f.lines > 1 || f.bareCr || !f.colon || !f.tokenName || f.wsBeforeColon || f.kind == 1) plain = false;
         for (unsigned i = 0; i < f.vl; ++i) { const uint8_t c = r.b[f.vs + i]; if (c < 32 && c != '\t') plain = false; if (c == 127) plain = false; }
+    }
+    if (onlyReplyWsColon) { // KNOWN FINDING C25-reply-ws-before-colon (known_findings.json): the property text, read literally
+        vf_assume(!request && wsColon && !r.hasNul && !foldedFraming);
+        vf_assert(!ok, "a field with whitespace before the colon is rejected");
+        return;
     }
     if (r.hasNul) vf_assert(!ok, "a block with a NUL byte is rejected");
     if (request && wsColon) vf_assert(!ok, "a request field with whitespace before the colon is rejected");
@@ -300,3 +306,14 @@ extern "C" void c25_names(void) { static Family *const f[] = {colon, name}; run(
 extern "C" void c25_lines(void) { static Family *const f[] = {value, eol, fold, fold2}; run(f, 4); }
 extern "C" void c25_ends(void) { static Family *const f[] = {head, tail, any}; run(f, 3); }
 extern "C" void c25_framing(void) { static Family *const f[] = {framing, dup}; run(f, 2); }
+
+// KNOWN FINDING C25-reply-ws-before-colon: reply header fields with whitespace before the colon are accepted (stripped)
+extern "C" void c25_known_reply_ws_colon(void)
+{
+    onlyReplyWsColon = true;
+    Setting s;
+    s.relaxed = relaxedSetting(false);
+    hdrConfig(s.relaxed);
+    s.owner = hoReply;
+    colon(s);
+}
